@@ -37,6 +37,7 @@ type bkConn struct {
 	aliases map[int]string
 	holdKey string // non-empty while the connecting handler is parked (bk.connhold)
 	holdCh  chan struct{}
+	cut     bool // the reader was stopped by bk.sendcut
 	cid     string
 }
 
@@ -181,6 +182,10 @@ func (h *bkHook) OnPublish(cl *mqtt.Client, pk packets.Packet) (packets.Packet, 
 		return pk, packets.ErrRejectPacket
 	case "ignore":
 		return pk, packets.CodeSuccessIgnore
+	case "wreject": // the same verdicts wrapped with context, as a hook that annotates its errors returns them
+		return pk, fmt.Errorf("policy: %w", packets.ErrRejectPacket)
+	case "wignore":
+		return pk, fmt.Errorf("policy: %w", packets.CodeSuccessIgnore)
 	case "err":
 		return pk, packets.ErrNotAuthorized
 	}
@@ -232,6 +237,10 @@ func (b *bkState) reader(c *bkConn) {
 			c.total += n
 		}
 		if err != nil {
+			if c.cut { // bk.sendcut stopped this reader on purpose: the harness marks the end itself
+				c.mu.Unlock()
+				return
+			}
 			c.eof = true
 			c.mu.Unlock()
 			return
@@ -808,6 +817,38 @@ func init() {
 			return "timeout-settle"
 		}
 		return b.collect(c.n)
+	}
+	// bk.sendcut <n> TYPE k=v... : the client sends one packet and vanishes before anything the handler answers
+	// can be delivered: the harness stops reading first (so the broker's write blocks on the pipe), sends the
+	// packet, then closes its side (the blocked write fails)
+	runners["bk.sendcut"] = func(st *state, a []string) string {
+		b := bkOf(st)
+		c := b.conns[atoi(a[0])]
+		if c == nil || c.closed {
+			return "no-conn"
+		}
+		pkt := buildClientPacket(c.ver, a[1:])
+		c.mu.Lock()
+		c.cut = true
+		c.mu.Unlock()
+		c.c.SetReadDeadline(time.Now()) // kicks the reader goroutine out of its Read
+		time.Sleep(2 * time.Millisecond)
+		c.c.SetWriteDeadline(time.Now().Add(2 * time.Second))
+		_, _ = c.c.Write(pkt)
+		c.closed = true
+		c.c.Close()
+		c.mu.Lock()
+		c.eof = true
+		c.mu.Unlock()
+		select {
+		case <-c.done:
+		case <-time.After(3 * time.Second):
+			return "timeout-handler"
+		}
+		if !b.settle() {
+			return "timeout-settle"
+		}
+		return b.collect(-1)
 	}
 	runners["bk.drop"] = func(st *state, a []string) string {
 		b := bkOf(st)
